@@ -212,9 +212,16 @@ def _ascii_float_text_range(idx, cls, f, depth=0):
         raise AnalysisError(f"{f.qualname}: text expression `{norm(e)[:60]}` outside the analysed fragment")
 
     def len_guard(test):
-        if (isinstance(test, ast.Compare) and len(test.ops) == 1 and isinstance(test.left, ast.Call) and dotted(test.left.func) == "len"
-                and isinstance(test.left.args[0], ast.Name)):
-            return test.left.args[0].id, test.ops[0], fold_int(test.comparators[0])
+        """(name, operator as if len(name) stood on the left, bound) for `len(name) OP K` written either way round"""
+        if not (isinstance(test, ast.Compare) and len(test.ops) == 1):
+            return None
+        a, b, op = test.left, test.comparators[0], test.ops[0]
+        is_len = lambda x: isinstance(x, ast.Call) and dotted(x.func) == "len" and x.args and isinstance(x.args[0], ast.Name)
+        if is_len(a):
+            return a.args[0].id, op, fold_int(b)
+        if is_len(b):
+            mirror = {ast.Lt: ast.Gt, ast.Gt: ast.Lt, ast.LtE: ast.GtE, ast.GtE: ast.LtE, ast.Eq: ast.Eq, ast.NotEq: ast.NotEq}
+            return (b.args[0].id, mirror[type(op)](), fold_int(a)) if type(op) in mirror else None
         return None
 
     result = None
